@@ -34,7 +34,10 @@ impl Cases {
         let c = self.dist.entry(kind.to_string()).or_insert(0);
         *c += 1;
         if *c <= 2 && self.samples.len() < 24 {
-            self.samples.push(format!("{req} => {ans}"));
+            let short = |x: &str| -> String {
+                if x.len() > 160 { format!("{} ... ({} chars)", &x[..x.char_indices().nth(160).map(|p| p.0).unwrap_or(x.len())], x.len()) } else { x.to_string() }
+            };
+            self.samples.push(format!("{} => {}", short(req), short(&ans)));
         }
     }
 }
